@@ -333,6 +333,7 @@ fn check(prop: &PropDef, args: &Args) -> i32 {
                 "predicate_failure": pred,
                 "failing_input_found": failing_input,
                 "from_corpus": i < n_corpus,
+                "variables_supplied": run::variables_supplied(c),
             }));
         }
     }
